@@ -75,7 +75,9 @@ static void free_case(const args_t *a, long idx)
             if (k < 4) { uint8_t big[1300]; tinyjambu_prng_generate(s, big, n); H("g%zu ", n); }
             else if (k < 6) { tinyjambu_prng_feed(s, data, rnd(&r, 60)); H("feed "); }
             else if (k == 6) { tinyjambu_prng_reseed(s); H("reseed "); }
-            else { tinyjambu_prng_set_reseed_limit(s, rnd(&r, 3000)); H("limit "); }
+            else { static const size_t LIM[] = {0, 1, 31, 32, 33, 1024, 1u << 20, (1u << 20) + 1, (size_t)-1};      /* the documented extremes as well: a free function may not read "limit 0" (or any field value) as "nothing to wipe" */
+                   size_t lim = rnd(&r, 2) ? LIM[rnd(&r, 9)] : rnd(&r, 3000);
+                   tinyjambu_prng_set_reseed_limit(s, lim); H("limit%zu ", lim); }
         }
         if (GUARD_TRY()) { tinyjambu_prng_free(s); GUARD_END(); } else { emit_viol("free-overruns:prng", "tinyjambu_prng_free faulted at %p", g_fault_addr); return; }
         break; }
